@@ -77,25 +77,28 @@ Proof.
   destruct (Hw g Hg) as [A _]. rewrite A in Hs. injection Hs as <-. exact Hn.
 Qed.
 
-(* ---- DESIGN 3.7 on the model: an Optional member of type Box<Option<_>> is
-   never skipped and its absent value is emitted as `null`. *)
-Theorem C03_boxed_option_serialises_null :
-  forall T p b u w g fs,
-    p_state p = POptional -> wire_name p = Some w -> p_rename p <> RFlatten ->
+(* ---- DESIGN 3.7 (fixed in /repo by b9da3ef; the model's [skip_if] looks
+   through one Box like generate_serde_attr now does): an Optional member of
+   type Box<Option<_>> holding None is skipped, an absent one is read as None,
+   and nothing is emitted for it. *)
+Theorem C03_boxed_option_is_skipped :
+  forall T sr dr p b u g fs,
+    p_state p = POptional -> p_rename p <> RFlatten ->
     get_det T (p_ty p) = Some (DBox b) -> get_det T b = Some (DOption u) ->
-    match get_det T u with Some (DOption _) => false | _ => true end = true ->
-    (forall x, skip_if T p x = false) /\
-    missing T (de (fun _ _ => false) (fun _ _ => false) T (S (S g))) (default_val T (S (S g))) p = Some ROptNone /\
-    ser_fields T (ser T (S (S g))) [p] ((p_name p, ROptNone) :: fs) = Some [(w, JNull)].
+    skip_if T p ROptNone = true /\
+    missing T dr (default_val T (S (S g))) p = Some ROptNone /\
+    ser_fields T sr [p] ((p_name p, ROptNone) :: fs) = Some [].
 Proof.
-  intros T p b u w g fs Hs Hw Hr Ht Hb Hu. split.
-  - intros x. exact (boxed_option_never_skipped T p b x Ht).
-  - exact (boxed_option_member_emits_null T p b u w g fs Hs Hw Hr Ht Hb Hu).
+  intros T sr dr p b u g fs Hs Hr Ht Hb. split; [|split].
+  - exact (boxed_option_skipped T p b u Hs Ht Hb).
+  - exact (boxed_option_absent_is_none T p b u dr g Hs Ht Hb).
+  - exact (boxed_option_member_omitted T sr p b u fs Hs Hr Ht Hb).
 Qed.
 
-(* The witness: the type space the real typify dumps for
+(* The regression witness: the type space the real typify dumps for
      A = {properties:{b:{$ref B}}},  B = {properties:{next:{$ref B}}}
-   (corpus/C03/ab-boxed-option.json; regenerated and compared on every run). *)
+   (corpus/C03/ab-boxed-option.json; entries compared with the live dump on
+   every run). *)
 Definition ab_space : space :=
   (mkSpace [(1%N, (mkEntry (DStruct [65]%N None [(mkProp [98]%N RNone POptional 3%N)] false) (@nil ustring)));
             (2%N, (mkEntry (DStruct [66]%N None [(mkProp [110; 101; 120; 116]%N RNone POptional 4%N)] false) (@nil ustring)));
@@ -109,20 +112,22 @@ Definition ab_defs : defs :=
 
 Definition no_tbl : ustring -> ustring -> bool := fun _ _ => false.
 
-(* v = {} is valid under B; its round trip is {"next": null}, which is NOT
-   valid under B (the member schema `$ref B` requires an object): the output
-   violates "again valid".  The type is in the class of the theorems above, so
-   the output is nevertheless a fixed point. *)
-Theorem C03_boxed_option_output_invalid :
+(* v = {} and v = {"next":{}} are valid under B and round-trip to themselves;
+   the outputs are valid again (before b9da3ef the first gave {"next":null},
+   invalid under B: fixed finding C03-F1). *)
+Theorem C03_boxed_option_round_trip_valid :
   rt_simple ab_space 2%N = true /\
-  valid no_tbl no_tbl ab_defs 10 (SRef [66]%N) (JObj []) = true /\
   (exists x, de no_tbl no_tbl ab_space 10 2%N (JObj []) = Some x /\
-             ser ab_space 10 2%N x = Some (JObj [([110; 101; 120; 116]%N, JNull)])) /\
+             ser ab_space 10 2%N x = Some (JObj [])) /\
+  valid no_tbl no_tbl ab_defs 10 (SRef [66]%N) (JObj []) = true /\
+  (exists x, de no_tbl no_tbl ab_space 10 2%N (JObj [([110; 101; 120; 116]%N, JObj [])]) = Some x /\
+             ser ab_space 10 2%N x = Some (JObj [([110; 101; 120; 116]%N, JObj [])])) /\
+  valid no_tbl no_tbl ab_defs 10 (SRef [66]%N) (JObj [([110; 101; 120; 116]%N, JObj [])]) = true /\
   valid no_tbl no_tbl ab_defs 10 (SRef [66]%N) (JObj [([110; 101; 120; 116]%N, JNull)]) = false.
 Proof.
-  split; [vm_compute; reflexivity|]. split; [vm_compute; reflexivity|]. split.
-  - eexists. split; vm_compute; reflexivity.
-  - vm_compute. reflexivity.
+  split; [vm_compute; reflexivity|]. split; [eexists; split; vm_compute; reflexivity|].
+  split; [vm_compute; reflexivity|]. split; [eexists; split; vm_compute; reflexivity|].
+  split; vm_compute; reflexivity.
 Qed.
 
 (* ---- untagged enums: the search returns the first accepting variant
